@@ -291,6 +291,33 @@ impl Handle {
     }
 }
 
+#[cfg(feature = "verif")]
+impl Handle {
+    /// Verification hook: run one merge pass now.
+    pub fn verif_merge(&self) -> Result<(), Error> {
+        self.merge()
+    }
+
+    /// Verification hook: dump the KeyDir as (key, fileid, pos, len) and the per-file statistics as
+    /// (fileid, live_keys, dead_keys, dead_bytes).
+    #[allow(clippy::type_complexity)]
+    pub fn verif_dump(&self) -> (Vec<(Bytes, u64, u64, u64)>, Vec<(u64, u64, u64, u64)>) {
+        let keydir = self
+            .ctx
+            .keydir
+            .iter()
+            .map(|e| (e.key().clone(), e.fileid, e.pos, e.len))
+            .collect();
+        let stats = self
+            .ctx
+            .stats
+            .iter()
+            .map(|e| (*e.key(), e.live_keys, e.dead_keys, e.dead_bytes))
+            .collect();
+        (keydir, stats)
+    }
+}
+
 impl Context {
     /// Return `true` if one of the merge trigger conditions is met.
     fn can_merge(&self) -> bool {
